@@ -25,6 +25,9 @@ func RepoDir() string {
 	return "/repo"
 }
 
+// KindOf classifies bytes by their leading signature.
+func KindOf(b []byte) string { return kindOf(b) }
+
 func kindOf(b []byte) string {
 	switch {
 	case len(b) >= 2 && b[0] == 0xFF && b[1] == 0xD8:
